@@ -7,7 +7,7 @@ import warnings
 import numpy as np
 from hypothesis import strategies as st
 
-from ..core import Failure, Law, Violation, given_law
+from ..core import Failure, Law, Violation, given_law, plain_law
 from .. import gen
 
 RULE = ("ri in [0.02,0.95] and the extremes 0.001 .. 0.995, nr in 5..18, azimuthal sampling npp in {5 nr (the kernel's own), int(2 pi nr) (make_kl's), 4 nr, "
@@ -169,6 +169,44 @@ def cart_body(ctx, p):
             m, ii[k], jj[k], vals[m, k], lo[m, k], hi[m, k], int(bad.sum()), bad.size))
 
 
+def crossing_cases(tier):
+    return [{"nr": 16, "dim": 32}, {"nr": 12, "dim": 25}] + ([{"nr": 24, "dim": 40}] if tier != "quick" else [])
+
+
+def crossing_body(ctx, case):
+    """Random obscuration ratios never make two different modes equally strong.  The variance of the rotationally symmetric
+    mode of the second group (defocus) crosses that of its neighbouring pair (astigmatism) at one ri: that ri is found by
+    bisection, and the Cartesian rendering is judged there like anywhere else (each mode follows ITS polar function)."""
+    kl = KL()
+    nr = case["nr"]
+    npp = int(2 * math.pi * nr)
+
+    def gap(ri):
+        ev = np.sort(np.asarray(quiet(kl.gkl_basis, ri, nr, npp, 6)["evals"], dtype=float)[2:5])
+        # two of the three are a (cos, sin) pair with equal variance; the third is the singleton
+        if abs(ev[1] - ev[0]) <= abs(ev[2] - ev[1]):
+            return ev[2] - ev[0]          # singleton on top
+        return ev[0] - ev[2]              # singleton at the bottom
+    grid = np.linspace(0.03, 0.6, 58)
+    g = [gap(r) for r in grid]
+    k = next((i for i in range(len(g) - 1) if g[i] * g[i + 1] < 0), None)
+    if k is None:
+        ctx.reject("no_variance_crossing_found")
+        return
+    lo, hi = float(grid[k]), float(grid[k + 1])
+    glo = g[k]
+    for _ in range(70):
+        mid = 0.5 * (lo + hi)
+        gm = gap(mid)
+        if gm == 0 or (gm > 0) == (glo > 0):
+            lo, glo = mid, gm
+        else:
+            hi = mid
+    ctx.note("variance_crossing_ri_nr%d" % nr, lo)
+    for ri in (lo, hi):
+        cart_body(ctx, {"ri": ri, "nr": nr, "dim": case["dim"], "mask": True, "mask_as": "bool", "route": "make_kl", "ncmar": 0, "nmax": 8, "outerscale": None})
+
+
 def resolution_run(ctx):
     """make_kl must construct for EVERY radial resolution (exhaustive over nr = 5 .. 80 quick / 160 thorough): shapes, finite
     modes, annulus pupil, variances in non-increasing order."""
@@ -198,5 +236,6 @@ LAWS = [
     Law("every_resolution_constructs", resolution_run, replay=resolution_replay, shards={"quick": 8, "thorough": 16}),
     given_law("polar_xl", polar_cases(26), polar_body, {"quick": 0, "thorough": 6}, shards={"quick": 1, "thorough": 16}),
     given_law("polar", polar_cases(), polar_body, {"quick": 20, "thorough": 200}, shards={"quick": 6, "thorough": 16}),
+    plain_law("degenerate_variances", crossing_cases, crossing_body, shards={"quick": 2, "thorough": 3}),
     given_law("cartesian", cart_cases(), cart_body, {"quick": 16, "thorough": 150}, shards={"quick": 5, "thorough": 16}),
 ]
